@@ -122,6 +122,20 @@ theorem src_applyTip_shape :
       [.call "m.store.ApplyBlock" [], .call "m.applyPoolUpdate" ["cau", "cs"], .set "m.tipState", .ret ["nil"]] ∧
     (skel_applyTip.filter isSet = [.set "m.tipState"]) := by decide
 
+/-- a block that already has a recorded supplement is re-applied WITH THAT supplement: the
+supplement is built (`Store.SupplementTipBlock`) once, in the first-application branch only, and the
+re-application branch reads the ancestor timestamp and applies, nothing else. (`UpdatesSince` and
+`revertTip` replay the recorded supplement; a re-application with a freshly built one can order the
+expiring contracts differently, so the tip state and the update stream would disagree on leaf
+indices — seeded C06-r10m2.) -/
+theorem src_applyTip_reuses_recorded_supplement :
+    guardedBy (isCall "m.store.SupplementTipBlock") inNoSupplementBranch skel_applyTip = true ∧
+    (callNames skel_applyTip).count "m.store.SupplementTipBlock" = 1 ∧
+    ((after (· == .els) skel_applyTip).filter (fun t => match t with | .call _ _ => true | _ => false)).map
+        (fun t => match t with | .call n _ => n | _ => "") =
+      ["m.store.AncestorTimestamp", "m.overwriteExpirations", "consensus.ApplyBlock", "m.store.ApplyBlock",
+       "m.applyPoolUpdate"] := by decide
+
 /-- a block that does not attach to the tip is a programming error (`panic`), not a state change:
 the check precedes every store access other than the read of the block -/
 theorem src_applyTip_attach_check_first :
